@@ -189,6 +189,7 @@ func checkC15(c *Ctx, r *Result, tier string) {
 
 	// ---- R15e ---------------------------------------------------------------------------------
 	c15BreakOnError(c, r, dbgIface)
+	c15StopAll(c, r, dbgIface)
 
 	// ---- R15d: the debugger lock is never re-acquired while held -------------------------------
 	nRe := checkReentrance(c, r, lfs, "R15d", func(class string) bool { return strings.HasPrefix(class, "interpreter.ecalDebugger") })
@@ -379,4 +380,126 @@ func c15BreakOnError(c *Ctx, r *Result, dbgIface *types.Interface) {
 		}
 	}
 	r.Floor("R15e", n, 1)
+}
+
+// ---- R15f: StopThreads wakes every suspended thread -----------------------------------------------
+
+// The loop over the interrogation states has to reach the wake-up (running = true + Broadcast,
+// directly or through a helper) for every suspended thread: whether it does may depend on that
+// thread's own state, but not on anything carried over from earlier rounds of the loop (a result
+// flag that short-circuits the call once one thread has been released).
+func c15StopAll(c *Ctx, r *Result, dbgIface *types.Interface) {
+	fStates := c.Field("interpreter", "ecalDebugger", "interrogationStates")
+	if fStates == nil {
+		r.Undecide("R15f: ecalDebugger.interrogationStates not found")
+		return
+	}
+	broadcasts := map[*ssa.Function]bool{}
+	for _, fn := range c.ModFuncs() {
+		if c.PkgOf(fn) != "interpreter" {
+			continue
+		}
+		allInstrs(fn, func(in ssa.Instruction) {
+			if op, ok := condOpOf(in); ok && (op.Kind == "Broadcast" || op.Kind == "Signal") {
+				broadcasts[fn] = true
+			}
+		})
+	}
+	n := 0
+	for _, fn := range c.Implementations(dbgIface, "StopThreads") {
+		if c.PkgOf(fn) != "interpreter" {
+			continue
+		}
+		key := c.FuncKey(fn)
+		// the range loop over the states
+		var loop map[*ssa.BasicBlock]bool
+		allInstrs(fn, func(in ssa.Instruction) {
+			rg, ok := in.(*ssa.Range)
+			if !ok {
+				return
+			}
+			if ld, ok := rg.X.(*ssa.UnOp); ok {
+				if fa, ok := ld.X.(*ssa.FieldAddr); ok && fieldVar(fa) == fStates {
+					for _, ref := range *rg.Referrers() {
+						if nx, ok := ref.(*ssa.Next); ok {
+							loop = sccOf(nx.Block())
+						}
+					}
+				}
+			}
+		})
+		if loop == nil {
+			r.Undecide("R15f: no loop over the interrogation states in %s", key)
+			continue
+		}
+		ord := newOrdinals()
+		allInstrs(fn, func(in ssa.Instruction) {
+			if !loop[in.Block()] {
+				return
+			}
+			wake := false
+			if op, ok := condOpOf(in); ok && (op.Kind == "Broadcast" || op.Kind == "Signal") {
+				wake = true
+			}
+			if call, ok := in.(*ssa.Call); ok {
+				if f := call.Call.StaticCallee(); f != nil && broadcasts[f] {
+					wake = true
+				}
+			}
+			if !wake {
+				return
+			}
+			n++
+			site := ord.key(key, "wake", "")
+			pos := c.Pos(c.InstrPos(in))
+			// conditions this wake-up is control dependent on
+			carried := ""
+			facts := FactsAt(in)
+			check := func(v ssa.Value) {
+				seen := map[ssa.Value]bool{}
+				var walk func(v ssa.Value, d int)
+				walk = func(v ssa.Value, d int) {
+					if v == nil || seen[v] || d > 8 {
+						return
+					}
+					seen[v] = true
+					switch x := v.(type) {
+					case *ssa.Phi:
+						if isLoopHeaderPhi(x) && loop[x.Block()] {
+							for i, pr := range x.Block().Preds {
+								if x.Block().Dominates(pr) {
+									if _, isC := x.Edges[i].(*ssa.Const); !isC {
+										carried = x.Comment
+									}
+								}
+							}
+						}
+						for _, e := range x.Edges {
+							walk(e, d+1)
+						}
+					case *ssa.UnOp:
+						walk(x.X, d+1)
+					case *ssa.BinOp:
+						walk(x.X, d+1)
+						walk(x.Y, d+1)
+					}
+				}
+				walk(v, 0)
+			}
+			for v := range facts.TrueV {
+				check(v)
+			}
+			for v := range facts.FalseV {
+				check(v)
+			}
+			if carried != "" {
+				r.Instance("R15f", site, pos, "finding", "wake-up depends on loop-carried "+carried, true)
+				r.Report(Finding{Rule: "R15f", Site: site, Pos: pos,
+					Msg: fmt.Sprintf("%s: whether a suspended thread is woken depends on %q, a value carried over from earlier rounds of the loop over the interrogation states: once it changes (e.g. `ret = ret || release()` short-circuits after the first released thread) the remaining suspended threads are never released", key, carried)})
+				return
+			}
+			r.Instance("R15f", site, pos, "ok", "the wake-up depends on the thread's own state only", true)
+		})
+	}
+	r.Floor("R15f", n, 1)
 }
